@@ -105,7 +105,7 @@ def main(run):
         else:
             opts["visibility"] = "pub"
         if rng.random() < 0.4:
-            v = rng.choice(["crate::scalars", "super::my_scalars"])
+            v = rng.choice(["crate::scalars", "super::my_scalars", "::ext::scalars", "self::scalars", "crate::a::b::c::scalars"])
             args += ["-p", v]
             opts["custom_scalars_module"] = v
             flag("-p")
@@ -286,11 +286,28 @@ def main(run):
                      "flags": ["-o", "-d", "deprecated-fields-selected"] + (["--no-formatting"] if nofmt else []), "doc_text": qtext_d, "schema_text": stext_d,
                      "outdir": os.path.join(d, "out"), "stale": False})
 
+    # a write fault on the output file itself (it is a symbolic link to /dev/full: every write fails with ENOSPC): the command
+    # must not report success for a file it could not write, however small the module is
+    if os.path.exists("/dev/full"):
+        for bi, nofmt in enumerate((True, False)):
+            d = os.path.join(root, "wfault%d" % bi)
+            os.makedirs(os.path.join(d, "out"))
+            sp = os.path.join(d, "schema.graphql")
+            open(sp, "w").write("type Query { n: Int }\n")
+            qp = os.path.join(d, "small.graphql")
+            open(qp, "w").write("query Small { n }\n")
+            os.symlink("/dev/full", os.path.join(d, "out", "small.rs"))
+            jobs.append({"id": "wfault%d" % bi, "kind": "write-fault", "argv": ["generate", "--schema-path", sp, qp, "-o", os.path.join(d, "out")] + (["--no-formatting"] if nofmt else []),
+                         "dir": d, "label": "output file cannot be written (ENOSPC)", "flags": ["-o", "write-fault"], "doc_text": "query Small { n }\n", "schema_text": "type Query { n: Int }\n",
+                         "outdir": os.path.join(d, "out")})
+
     def snapshot(d):
         out = {}
         for base, _, files in os.walk(d):
             for f in files:
                 p = os.path.join(base, f)
+                if not os.path.isfile(p):
+                    continue        # (a device behind a symbolic link: nothing to hash)
                 out[os.path.relpath(p, d)] = sha(p)
         return out
 
@@ -347,6 +364,12 @@ def main(run):
                     if got != ref:
                         sym = "formatted file differs from rustfmt(header + library tokens)"
                 run.count("success-compared")
+        elif job["kind"] == "write-fault":
+            run.count("write-fault-cases")
+            if rc == DEADLOCK_RC:
+                sym = "the command never terminates: %s" % se[:200].strip()
+            elif rc == 0:
+                sym = "exit 0 although every write to the output file fails (ENOSPC): the module was not delivered"
         elif job["kind"] == "unformattable":
             l = lib[job["id"]]
             run.count("unformattable-module-cases")
